@@ -240,70 +240,70 @@ Definition mstep (K : cfg) (s : st) (o : mop) : st :=
   match o with
   | FCreateSink h name =>
       match aget h (hnd s) with
-      | Some _ => emit [3; 0] s
+      | Some _ => emit [3; h; name; 0] s
       | None =>
           match sink_lookup name s with
-          | Some u => emit [3; u] (set_hnd (aset h u) (set_live (cons u) s))
+          | Some u => emit [3; h; name; u] (set_hnd (aset h u) (set_live (cons u) s))
           | None =>
               let u := nsk s in
-              emit [3; u] (set_nsk N.succ (set_hnd (aset h u) (set_live (cons u)
+              emit [3; h; name; u] (set_nsk N.succ (set_hnd (aset h u) (set_live (cons u)
                 (set_stab (lb_insert e_name {| e_name := name; e_uid := u |}) s))))
           end
       end
   | FDrop h =>
       match aget h (hnd s) with
-      | None => emit [14; 0] s
-      | Some u => release1 u (emit [14; 1] (set_hnd (adel h) s))
+      | None => emit [14; h; 0] s
+      | Some u => release1 u (emit [14; h; 1] (set_hnd (adel h) s))
       end
   | FCreate v name hs =>
       if locked s then s else
       match lb_find l_name name (lgs s) with
-      | Some L => emit [4; l_uid L] (set_vars (aset v (l_uid L)) s)
+      | Some L => emit ([4; v; name; l_uid L; N.of_nat (length hs)] ++ hs) (set_vars (aset v (l_uid L)) s)
       | None =>
           let ss := handles_of hs (hnd s) in
           let u := nlg s in
-          emit [4; u] (set_nlg N.succ (set_vars (aset v u) (set_live (app ss)
+          emit ([4; v; name; u; N.of_nat (length hs)] ++ hs) (set_nlg N.succ (set_vars (aset v u) (set_live (app ss)
             (set_lgs (lb_insert l_name {| l_name := name; l_uid := u; l_valid := true; l_sinks := ss |}) s))))
       end
   | FGet v name =>
       if locked s then s else
       match lb_find l_name name (lgs s) with
       | Some L => if l_valid L || negb (c_get_valid K)
-                  then emit [5; l_uid L] (set_vars (aset v (l_uid L)) s)
-                  else emit [5; 0] (set_vars (adel v) s)
-      | None => emit [5; 0] (set_vars (adel v) s)
+                  then emit [5; v; name; l_uid L] (set_vars (aset v (l_uid L)) s)
+                  else emit [5; v; name; 0] (set_vars (adel v) s)
+      | None => emit [5; v; name; 0] (set_vars (adel v) s)
       end
   | FLog t v m =>
-      if negb (tfree s t) then emit [6; 0] s else
+      if negb (tfree s t) then emit [6; N.of_nat t; v; m; 0] s else
       match aget v (vars s) with
-      | None => emit [6; 0] s
+      | None => emit [6; N.of_nat t; v; m; 0] s
       | Some u =>
           match find_uid u (lgs s) with
-          | None => emit [6; 0] (set_bad (fun _ => true) s)      (* the caller uses a freed logger *)
-          | Some L => emit [6; 1] (commit t {| r_kind := KLog; r_lg := u; r_val := m; r_name := l_name L; r_ts := clk s |} s)
+          | None => emit [6; N.of_nat t; v; m; 0] (set_bad (fun _ => true) s)      (* the caller uses a freed logger *)
+          | Some L => emit [6; N.of_nat t; v; m; 1] (commit t {| r_kind := KLog; r_lg := u; r_val := m; r_name := l_name L; r_ts := clk s |} s)
           end
       end
   | FRemove v =>
       match aget v (vars s) with
-      | None => emit [7; 0] s
+      | None => emit [7; v; 0] s
       | Some u =>
           match find_uid u (lgs s) with
-          | None => emit [7; 0] (set_bad (fun _ => true) s)
-          | Some _ => emit [7; 1] (set_vars (adel v) (set_has_inv (fun _ => true) (set_lgs (invalidate u) s)))
+          | None => emit [7; v; 0] (set_bad (fun _ => true) s)
+          | Some _ => emit [7; v; 1] (set_vars (adel v) (set_has_inv (fun _ => true) (set_lgs (invalidate u) s)))
           end
       end
   | FRbReq t v =>
-      if negb (tfree s t) then emit [8; 0] s else
+      if negb (tfree s t) then emit [8; N.of_nat t; v; 0] s else
       match aget v (vars s) with
-      | None => emit [8; 0] s
+      | None => emit [8; N.of_nat t; v; 0] s
       | Some u =>
           match find_uid u (lgs s) with
-          | None => emit [8; 0] (set_bad (fun _ => true) s)
+          | None => emit [8; N.of_nat t; v; 0] (set_bad (fun _ => true) s)
           | Some L =>
               let f := nfl s in
               let s1 := commit t {| r_kind := KRem; r_lg := u; r_val := f; r_name := l_name L; r_ts := clk s |} s in
               let x := th s1 t in
-              emit [8; 2] (set_nfl N.succ (set_vars (adel v)
+              emit [8; N.of_nat t; v; 2] (set_nfl N.succ (set_vars (adel v)
                 (set_th t {| t_q := t_q x; t_tb := t_tb x; t_blk := Some (u, f, false) |} s1)))
           end
       end
@@ -322,9 +322,9 @@ Definition mstep (K : cfg) (s : st) (o : mop) : st :=
       match t_blk (th s t) with
       | Some (u, f, true) =>
           if memN f (fset s)
-          then let x := th s t in emit [9; 1] (set_th t {| t_q := t_q x; t_tb := t_tb x; t_blk := None |} s)
-          else emit [9; 2] s
-      | _ => emit [9; 0] s
+          then let x := th s t in emit [9; N.of_nat t; 1] (set_th t {| t_q := t_q x; t_tb := t_tb x; t_blk := None |} s)
+          else emit [9; N.of_nat t; 2] s
+      | _ => emit [9; N.of_nat t; 0] s
       end
   | FCount => if locked s then s else emit [10; N.of_nat (length (lgs s))] s
   | FList =>
